@@ -3,6 +3,7 @@
 
 //#include <igris/compiler.h>
 #include <igris/compiler.h>
+#include <igris/util/member.h>
 
 struct hlist_node
 {
@@ -62,7 +63,8 @@ __END_DECLS
     for (pos = (head)->first; pos != 0; pos = pos->next)
 
 #define hlist_for_each_entry(pos, head, member)                                \
-    for (pos = hlist_first_entry(head, __typeof__(*pos), member);              \
-         &pos->member != 0; pos = hlist_next_entry(pos, member))
+    for (pos = mcast_out_or_null((head)->first, __typeof__(*pos), member);     \
+         pos != 0;                                                             \
+         pos = mcast_out_or_null((pos)->member.next, __typeof__(*pos), member))
 
 #endif
